@@ -406,7 +406,7 @@ func runText(m *modeOps, v int32) (impl, oracle string) {
 // --- domains ---
 
 var (
-	fileModes  = []uint32{0, 0600, 0644, 0755, 0700, 0111, 01644, 0777, 0640}
+	fileModes  = []uint32{0, 0600, 0644, 0755, 0700, 0111, 01644, 0777, 0640, 0641, 0610}
 	dirModes   = []uint32{0, 0700, 0755, 01755}
 	owners     = []string{"", "root", "id:0", "id:1000", "id:01", "id:", "id:x", "sid:S-1-5", "sid:", "nosuchuser9", "id:10a", "i", "sid"}
 	safeOwners = []string{"", "root", "id:0"}
